@@ -14,7 +14,7 @@ func (d *DatagramType) PrintMessageOverview(send bool, localFeature, remoteFeatu
 	}
 	if !send {
 		transmission = "Recv"
-		if d.Header.AddressSource.Device != nil {
+		if d.Header.AddressSource != nil && d.Header.AddressSource.Device != nil {
 			device = string(*d.Header.AddressSource.Device)
 		}
 		device = fmt.Sprintf("%s:%s to %s", device, remoteFeature, localFeature)
@@ -28,6 +28,10 @@ func (d *DatagramType) PrintMessageOverview(send bool, localFeature, remoteFeatu
 	if d.Header.MsgCounter != nil {
 		msgCounter = *d.Header.MsgCounter
 	}
+	msgCounterRef := MsgCounterType(0)
+	if d.Header.MsgCounterReference != nil {
+		msgCounterRef = *d.Header.MsgCounterReference
+	}
 	cmd := CmdType{}
 	if len(d.Payload.Cmd) > 0 {
 		cmd = d.Payload.Cmd[0]
@@ -37,11 +41,12 @@ func (d *DatagramType) PrintMessageOverview(send bool, localFeature, remoteFeatu
 	case CmdClassifierTypeRead:
 		result = fmt.Sprintf("%s: %s %s %d %s", transmission, device, cmdClassifier, msgCounter, cmd.DataName())
 	case CmdClassifierTypeReply:
-		msgCounterRef := *d.Header.MsgCounterReference
 		result = fmt.Sprintf("%s: %s %s %d %d %s", transmission, device, cmdClassifier, msgCounter, msgCounterRef, cmd.DataName())
 	case CmdClassifierTypeResult:
-		msgCounterRef := *d.Header.MsgCounterReference
-		errorNumber := *d.Payload.Cmd[0].ResultData.ErrorNumber
+		errorNumber := ErrorNumberType(0)
+		if cmd.ResultData != nil && cmd.ResultData.ErrorNumber != nil {
+			errorNumber = *cmd.ResultData.ErrorNumber
+		}
 		result = fmt.Sprintf("%s: %s %s %d %d %s %d", transmission, device, cmdClassifier, msgCounter, msgCounterRef, cmd.DataName(), errorNumber)
 	default:
 		result = fmt.Sprintf("%s: %s %s %d %s", transmission, device, cmdClassifier, msgCounter, cmd.DataName())
